@@ -74,7 +74,7 @@ package sync
 //@   props C05
 //@   requires d != nil && d.log != nil
 //@   requires forall(k, 0, len(blocks), blocks[k] != nil)
-//@   modifies region("chan:sync.EVMBlock.sent"), region("chan:sync.EVMBlock.nsent"), region("sync.EVMBlock.IsFinalizedBlock"), coveredTo
+//@   modifies region("chan:aggkit/sync.EVMBlock.sent"), region("chan:aggkit/sync.EVMBlock.nsent"), region("aggkit/sync.EVMBlock.IsFinalizedBlock"), coveredTo
 //@   set coveredTo := ite(len(blocks) > 0 && blocks[len(blocks) - 1].Num > old(coveredTo), blocks[len(blocks) - 1].Num, old(coveredTo))
 //@   ensures[reported-blocks-are-covered] coveredTo == ite(len(blocks) > 0 && blocks[len(blocks) - 1].Num > old(coveredTo), blocks[len(blocks) - 1].Num, old(coveredTo))
 //@   loop 0 invariant d != nil && d.log != nil && forall(k, 0, len(blocks), blocks[k] != nil)
@@ -83,7 +83,7 @@ package sync
 //@   props C05
 //@   requires d != nil && d.log != nil && d.EVMDownloaderInterface != nil
 //@   requires[marker-only-after-the-scan] blockNum < scanNext
-//@   modifies region("chan:sync.EVMBlock.sent"), region("chan:sync.EVMBlock.nsent"), coveredTo, cancelSeen
+//@   modifies region("chan:aggkit/sync.EVMBlock.sent"), region("chan:aggkit/sync.EVMBlock.nsent"), coveredTo, cancelSeen
 //@   choose cancelSeen with true
 //@   set coveredTo := ite(!cancelSeen && blockNum > old(coveredTo), blockNum, old(coveredTo))
 //@   ensures[marker-covers-its-block-unless-cancelled] cancelSeen || coveredTo >= blockNum
